@@ -183,28 +183,54 @@ def prov(ctx):
     return shared(ctx, "prov", lambda: Fl.Prov(ctx.lib, extra_transparent=ABSPATH_VIEWS))
 
 
-def ok_sites(body):
-    """blocks in which `Ok(..)` is stored into the return place"""
+def ret_carriers(body):
+    """locals whose value becomes the return value by plain moves (`_0 = move _5` left behind by an inlined helper's return, or by
+    an error decorator applied to the carried Result): a Result aggregate stored into one of them is a return site"""
+    r = getattr(body, "_ret_carriers", None)
+    if r is not None:
+        return r
+    r = {0}
+    changed = True
+    while changed:
+        changed = False
+        for bb, si, st in body.stmts():
+            if st["k"] == "assign" and not st["lhs"]["p"] and st["lhs"]["l"] in r and st["rv"]["k"] == "use":
+                p = C.op_place(st["rv"]["op"])
+                if p is not None and not p["p"] and p["l"] not in r and not body.is_param(p["l"]):
+                    r.add(p["l"])
+                    changed = True
+        for bb, t in body.calls():
+            if not t["dest"]["p"] and t["dest"]["l"] in r and C.is_err_decorator(t) and t["args"]:
+                p = C.op_place(t["args"][0])
+                if p is not None and not p["p"] and p["l"] not in r and not body.is_param(p["l"]):
+                    r.add(p["l"])
+                    changed = True
+    body._ret_carriers = r
+    return r
+
+
+def _result_sites(body, variant):
     out = []
+    rc = ret_carriers(body)
     for bb, si, st in body.stmts():
-        if st["k"] == "assign" and st["lhs"]["l"] == 0 and not st["lhs"]["p"]:
+        if st["k"] == "assign" and st["lhs"]["l"] in rc and not st["lhs"]["p"]:
             rv = st["rv"]
             if rv["k"] == "aggregate" and rv["agg"]["k"] == "adt" and rv["agg"]["adt"] == "std::result::Result" \
-                    and rv["agg"]["variant"] == "Ok":
+                    and rv["agg"]["variant"] == variant and bb not in out:
                 out.append(bb)
     return out
 
 
+def ok_sites(body):
+    """blocks in which `Ok(..)` is stored into the return place (or into a local that is then moved into it)"""
+    return _result_sites(body, "Ok")
+
+
 def err_sites(body):
-    out = []
-    for bb, si, st in body.stmts():
-        if st["k"] == "assign" and st["lhs"]["l"] == 0 and not st["lhs"]["p"]:
-            rv = st["rv"]
-            if rv["k"] == "aggregate" and rv["agg"]["k"] == "adt" and rv["agg"]["adt"] == "std::result::Result" \
-                    and rv["agg"]["variant"] == "Err":
-                out.append(bb)
+    out = _result_sites(body, "Err")
+    rc = ret_carriers(body)
     for bb, t in body.calls():
-        if C.is_from_residual(t) and t["dest"]["l"] == 0:
+        if C.is_from_residual(t) and t["dest"]["l"] in rc and not t["dest"]["p"] and bb not in out:
             out.append(bb)
     return out
 
@@ -405,6 +431,9 @@ PATH_ARG = {  # which argument of the API is the path
 }
 
 
+HANDLE_WRAPPERS = ("std::io::BufWriter::<W>::new", "std::io::BufWriter::<W>::with_capacity", "std::io::LineWriter::<W>::new")
+
+
 class Site:
     def __init__(self, prog, body, bb, kind, name, obj, cls):
         self.prog = prog
@@ -417,6 +446,7 @@ class Site:
         self.modes = None
         self.role = None
         self.leaves = None
+        self.handle_from = None
 
     def key(self):
         return "%s|%s" % (self.body.name, self.name)
@@ -504,5 +534,19 @@ def fs_inventory(ctx):
                     else:
                         s.modes = M.ALL
                     sites.append(s)
+        # a write through a handle inherits the role of the site that created the handle in the same body
+        # (`File::create(tmp)?.write_all(..)` is a write to the temp target), when that is the only origin of the handle
+        by_call = {(id(x.body), x.bb): x for x in sites if x.kind == "call"}
+        for s in sites:
+            if s.cls != "WRITE_HANDLE" or s.kind != "call" or not s.obj["args"]:
+                continue
+            lv = C.trace(s.body, s.obj["args"][0], transparent=lambda t: C.is_transparent(t) or C.callee_name(t) in HANDLE_WRAPPERS)
+            srcs = [by_call.get((id(s.body), l.bb)) for l in lv if l.kind == "call"]
+            if lv and len(srcs) == len(lv) and all(x is not None and x.cls == "CREATE_TRUNC" for x in srcs):
+                roles = {x.role for x in srcs}
+                if len(roles) == 1:
+                    s.role = roles.pop()
+                    s.leaves = [l for x in srcs for l in (x.leaves or [])]
+                    s.handle_from = srcs
         return sites
     return shared(ctx, "fs_inventory", make)
